@@ -1192,3 +1192,163 @@ func zzC05fResumeRefused() {
 	conn.Close(ctx)
 	vf.Reach("end")
 }
+
+// C10.g: goroutine census. After the connection's Close has returned and the peer side is closed
+// too, no goroutine started by the library is left - whether streams were open, closed first, or
+// still held unread data; closed notifications fired at most once.
+func zzC10gNoGoroutineLeft() {
+	b := zzNewBroker()
+	zzServeStreams(b)
+	ev := &zzEvents{}
+	conf := b.config()
+	conf.DisconnectedEventHandler = ev
+	conf.ReconnectedEventHandler = ev
+	n := 0
+	randomString = func() string { n++; return "call-" + string(rune('a'+n)) }
+	conn, err := ConnectWithConfig(conf)
+	vf.Assume(err == nil)
+	vf.Settle()
+	ctx := context.Background()
+	tr := b.last()
+	shape := vf.Choose("streams", 4) // 0 none, 1 open at close, 2 closed before, 3 open with pending traffic
+	var up *Upstream
+	var down *Downstream
+	if shape != 0 {
+		up, err = conn.OpenUpstream(ctx, "session", WithUpstreamFlushPolicyNone(), WithUpstreamQoS(message.QoSReliable), WithUpstreamClosedEventHandler(ev), WithUpstreamCloseTimeout(time.Second))
+		vf.Assume(err == nil)
+		down, err = conn.OpenDownstream(ctx, []*message.DownstreamFilter{{SourceNodeID: "node"}}, WithDownstreamClosedEventHandler(ev))
+		vf.Assume(err == nil)
+		vf.Settle()
+	}
+	if shape == 3 {
+		var open *message.DownstreamOpenRequest
+		for _, m := range tr.msgs() {
+			if r, ok := m.(*message.DownstreamOpenRequest); ok {
+				open = r
+			}
+		}
+		vf.Assume(open != nil)
+		// an unacknowledged chunk upstream, an unread chunk and unread metadata downstream, an unread call
+		vf.Assume(up.WriteDataPoints(ctx, &message.DataID{Name: "n", Type: "t"}, &message.DataPoint{ElapsedTime: 1}) == nil)
+		vf.Assume(up.Flush(ctx) == nil)
+		tr.push(&message.DownstreamChunk{StreamIDAlias: open.DesiredStreamIDAlias, UpstreamOrAlias: &message.UpstreamInfo{SessionID: "s", SourceNodeID: "node", StreamID: zzStreamID1},
+			StreamChunk: &message.StreamChunk{SequenceNumber: 1, DataPointGroups: []*message.DataPointGroup{{DataIDOrAlias: &message.DataID{Name: "x", Type: "t"}, DataPoints: []*message.DataPoint{{ElapsedTime: 1}}}}}})
+		tr.push(&message.DownstreamMetadata{RequestID: 101, StreamIDAlias: open.DesiredStreamIDAlias, SourceNodeID: "node", Metadata: &message.BaseTime{SessionID: "s", Name: "bt"}})
+		tr.push(&message.DownstreamCall{CallID: "c1", SourceNodeID: "n1", Name: "a", Type: "b"})
+		vf.Settle()
+	}
+	if shape == 2 {
+		vf.Assert("stream-close-ok", up.Close(ctx) == nil && down.Close(ctx) == nil)
+		vf.Settle()
+	}
+	cctx, cancel := context.WithTimeout(ctx, 5*time.Second)
+	cerr := conn.Close(cctx)
+	cancel()
+	vf.Assert("close-ok", cerr == nil)
+	// the peer closes its side too
+	tr.Close()
+	vf.Settle()
+	vf.Advance(30 * time.Second)
+	vf.Assert("closed-notifications-at-most-once", ev.upClosed <= 1 && ev.downClosed <= 1)
+	if shape == 2 {
+		vf.Assert("explicitly-closed-streams-reported-once", ev.upClosed == 1 && ev.downClosed == 1)
+	}
+	vf.Assert("no-goroutine-left", vf.Leaked() == "")
+	vf.Assert("never-reconnected", b.dials == 1 && ev.reconnected == 0)
+	vf.Reach("end")
+}
+
+// C10.g2: goroutine census after an outage: the goroutines of the first wire connection and of the
+// first incarnation of each stream are gone too once the recovered connection has been closed.
+func zzC10g2NoGoroutineLeftAfterOutage() {
+	b := zzNewBroker()
+	zzServeStreams(b)
+	ev := &zzEvents{}
+	conf := b.config()
+	n := 0
+	randomString = func() string { n++; return "call-" + string(rune('a'+n)) }
+	conn, err := ConnectWithConfig(conf)
+	vf.Assume(err == nil)
+	vf.Settle()
+	ctx := context.Background()
+	tr1 := b.last()
+	up, err := conn.OpenUpstream(ctx, "session", WithUpstreamFlushPolicyNone(), WithUpstreamQoS(message.QoSReliable), WithUpstreamClosedEventHandler(ev), WithUpstreamResumedEventHandler(ev), WithUpstreamCloseTimeout(time.Second))
+	vf.Assume(err == nil)
+	_, err = conn.OpenDownstream(ctx, []*message.DownstreamFilter{{SourceNodeID: "node"}}, WithDownstreamClosedEventHandler(ev), WithDownstreamResumedEventHandler(ev))
+	vf.Assume(err == nil)
+	vf.Settle()
+	vf.Assume(up.WriteDataPoints(ctx, &message.DataID{Name: "n", Type: "t"}, &message.DataPoint{ElapsedTime: 1}) == nil)
+	vf.Assume(up.Flush(ctx) == nil)
+	vf.Settle()
+	tr1.Close()
+	vf.Settle()
+	vf.Advance(11 * time.Second)
+	vf.Settle()
+	vf.Advance(2 * time.Second)
+	vf.Settle()
+	vf.Assume(b.dials == 2 && ev.upResumed == 1 && ev.downResumed == 1)
+	closeStreamsFirst := vf.Choose("close.streams.first", 2) == 1
+	if closeStreamsFirst {
+		// the resent chunk is never acknowledged: the stream's Close gives up at its close timeout
+		var cerr error
+		blocked := vf.Blocked(func() { cerr = up.Close(ctx) })
+		if blocked {
+			vf.Advance(2 * time.Second)
+		}
+		_ = cerr
+	}
+	cctx, cancel := context.WithTimeout(ctx, 5*time.Second)
+	cerr := conn.Close(cctx)
+	cancel()
+	vf.Assert("close-ok", cerr == nil)
+	b.last().Close()
+	vf.Settle()
+	vf.Advance(30 * time.Second)
+	vf.Assert("no-goroutine-left", vf.Leaked() == "")
+	vf.Assert("closed-notifications-at-most-once", ev.upClosed <= 1 && ev.downClosed <= 1)
+	vf.Reach("end")
+}
+
+// C08.e: Upstream.Close is bounded by its context and by the stream's close timeout when the broker
+// never acknowledges the chunks still in flight.
+func zzC08eUpstreamCloseBounded() {
+	b := zzNewBroker()
+	zzServeStreams(b) // answers requests, never acknowledges chunks
+	conn := zzConnect(b)
+	ctx := context.Background()
+	qos := message.QoSUnreliable
+	if vf.Choose("reliable", 2) == 1 {
+		qos = message.QoSReliable
+	}
+	up, err := conn.OpenUpstream(ctx, "session", WithUpstreamFlushPolicyNone(), WithUpstreamQoS(qos), WithUpstreamCloseTimeout(3*time.Second))
+	vf.Assume(err == nil)
+	vf.Settle()
+	vf.Assume(up.WriteDataPoints(ctx, &message.DataID{Name: "n", Type: "t"}, &message.DataPoint{ElapsedTime: 1}) == nil)
+	if vf.Choose("flushed.before.close", 2) == 1 {
+		vf.Assume(up.Flush(ctx) == nil)
+		vf.Settle()
+	}
+	cctx, cancel := ctx, context.CancelFunc(func() {})
+	bound := 3 * time.Second // the close timeout
+	if vf.Choose("caller.deadline", 2) == 1 {
+		cctx, cancel = context.WithTimeout(ctx, time.Second)
+		bound = time.Second
+	}
+	defer cancel()
+	done := false
+	go func() { up.Close(cctx); done = true }()
+	vf.Settle()
+	vf.Assert("waits-for-acks-at-first", !done)
+	vf.Advance(bound + 100*time.Millisecond)
+	vf.Assert("stream-close-returns-by-its-bound", done)
+	if !done {
+		return
+	}
+	werr := up.WriteDataPoints(ctx, &message.DataID{Name: "n", Type: "t"}, &message.DataPoint{ElapsedTime: 2})
+	vf.Assert("closed-afterwards", werr != nil)
+	// the connection keeps working
+	merr := conn.SendMetadata(ctx, &message.BaseTime{SessionID: "session", Name: "after"})
+	vf.Assert("connection-serves-requests", merr == nil)
+	conn.Close(ctx)
+	vf.Reach("end")
+}
